@@ -63,6 +63,8 @@ structure SState where
   drainQ : List (Nat × Bool) := []
   opened : Nat := 0
   closed : Nat := 0
+  /-- `Ghost.waive` marks seen -/
+  waived : Nat := 0
 
 def SState.init (sr : Msg → Bool) (c : Conn) (ts : List Task) (paused : Bool := false) : SState :=
   { conn := c, tasks := ts.map fun t => .live none (t.body sr), paused := paused }
@@ -80,12 +82,14 @@ def SState.runTask (s : SState) (i : Nat) (k : Conn → Res Unit) : SState :=
   | .done c e g r =>
     { s with conn := c, tasks := s.tasks.set i .fin,
              log := s.log ++ (e ++ errEff r).map fun x => (i, x),
-             opened := s.opened + countGhost .rewind g, closed := s.closed + countGhost .restore g }
+             opened := s.opened + countGhost .rewind g, closed := s.closed + countGhost .restore g,
+             waived := s.waived + countGhost .waive g }
   | .yield c e g pt k' =>
     { s with conn := c, tasks := s.tasks.set i (.live (some pt) k'),
              log := s.log ++ e.map fun x => (i, x),
              drainQ := if pt == .drain && s.paused then s.drainQ ++ [(i, false)] else s.drainQ,
-             opened := s.opened + countGhost .rewind g, closed := s.closed + countGhost .restore g }
+             opened := s.opened + countGhost .rewind g, closed := s.closed + countGhost .restore g,
+             waived := s.waived + countGhost .waive g }
 
 def SState.queued (s : SState) (i : Nat) : Bool := s.drainQ.any fun p => p.1 == i
 
@@ -124,6 +128,12 @@ def SState.windowOpen (s : SState) : Bool := decide (s.closed < s.opened)
 
 /-- some `_process_resend` has rewound the outbound counter during the prefix -/
 def SState.everRewound (s : SState) : Bool := decide (0 < s.opened)
+
+/-- some acceptor Logon reply was lost (no transport / no free journal slot) during the prefix -/
+def SState.everWaived (s : SState) : Bool := decide (0 < s.waived)
+
+/-- nothing is claimed once this is non-zero -/
+def SState.blocked (s : SState) : Nat := s.opened + s.waived
 
 /-- the effects without their task ids -/
 def SState.effects (s : SState) : List Effect := s.log.map (·.2)
